@@ -34,6 +34,8 @@ package fsnotify
 
 //@ func (w *shared) isClosed() (r bool)
 //@   requires w.done != nil
+//@   effect   tok:sawOpen = old(token(sawOpen)) || !r
+//@   ensures  token(sawOpen) <==> (old(token(sawOpen)) || !r)                        [C14] "an operation that finds the Watcher open may use its descriptor"
 //@   ensures  r ==> closed(w.done)                                                  [C06 C13]
 //@   ensures  old(closed(w.done)) ==> r                                             [C06] "once closed, always reported closed"
 
